@@ -61,6 +61,17 @@ pub fn exec(_label: &str, input: &str, out: &mut CaseOut) {
                 Ok(t) => t,
                 Err(_) => return,
             };
+            // buffer entry point = reader entry point: `from_str` and a `Parser` over a reader on the same bytes
+            {
+                let by_str = from_str(&text).map(|v| vx::show(&v)).map_err(|_| ());
+                let by_reader = decode_bytes(&bytes).map(|v| vx::show(&v));
+                if by_str != by_reader {
+                    out.fail(
+                        "str_vs_reader",
+                        format!("from_str gives {}, Parser::make(reader).parse_value() gives {} on the same bytes   t={text:?}", if by_str.is_ok() { "a value" } else { "an error" }, if by_reader.is_ok() { if by_str.is_ok() { "another value" } else { "a value" } } else { "an error" }),
+                    );
+                }
+            }
             let v = match from_str(&text) {
                 Ok(v) => v,
                 Err(_) => {
